@@ -55,7 +55,16 @@ Pool == <<
   \* variable of such a name is not touched by evaluating an operator
   Set("default", H(7)),
   Set("ints", CollectE(TFilterE(IterE(ArrE(<<I(1), S(<<97>>), I(2)>>)), WInt))),
-  Set("dd", V("default"))
+  Set("dd", V("default")),
+  \* a left operand with an effect next to a right operand whose VALUE the incremental route knows
+  Set("bf", Bin("<", Deref(V("c")), I(0))),
+  Set("bb", AndE(Bin(">", Asg("+=", V("c"), I(1)), I(0)), V("bf"))),
+  \* a loop body that reads x and later declares its own x: every round — also after `continue' — starts afresh
+  Set("lv", Block(<<Set("acc", MutE(WInt, I(0))), Set("k", MutE(WInt, I(0))),
+                   Loop(Block(<<Asg("+=", V("k"), I(1)), If1(Bin(">", Deref(V("k")), I(3)), Break),
+                                Asg("=", V("acc"), Bin("+", Bin("*", Deref(V("acc")), I(10)), V("x"))), Set("x", S(<<105>>)),
+                                If1(Bin("==", Deref(V("k")), I(1)), ContinueS), Set("zz", I(0))>>)),
+                   Deref(V("acc"))>>))
 >>
 \* a statement can only be fed when the names it uses are bound: sessions are generated freely and the
 \* specification classifies ill-formed ones as "stuck" (unbound name) — those are expected to be rejected.
